@@ -372,10 +372,9 @@ def run(repo, res, tier):
     # ------------------------------------------------------------------ RT-NAMEMAP
     wmap = cx.map_xml
     rsf = rmod.classes["StateFactory"]
-    rmap = NameMap(rsf.methods["_map_to_xml_prop"], "StateFactory._map_to_xml_prop")
-    rinv = NameMap(rsf.methods["_map_to_prop"], "StateFactory._map_to_prop")
-    res.check("RT-NAMEMAP", "writer and reader map attribute -> element name identically (special cases %s)" % sorted(wmap.special), wmap.special == rmap.special and wmap.kind == rmap.kind == "s2c", wmod, wmap.fn, "writer special cases %s, reader special cases %s" % (sorted(wmap.special.items()), sorted(rmap.special.items())), "a state attribute is written under one element name and looked up under another", qualname="StateXMLNode._map_to_xml_prop")
-    res.check("RT-NAMEMAP", "reader's element -> attribute map inverts the special cases", {v: k for k, v in rmap.special.items()} == rinv.special and rinv.kind == "c2s", rmod, rinv.fn, "inverse special cases %s" % sorted(rinv.special.items()), "custom states are read back with other attribute names than written", qualname="StateFactory._map_to_prop")
+    rmap = NameMap(rsf.methods["_map_to_xml_prop"], "StateFactory._map_to_xml_prop", repo, rsf, rmod)
+    rinv = NameMap(rsf.methods["_map_to_prop"], "StateFactory._map_to_prop", repo, rsf, rmod)
+    # decided per attribute: the three maps are folded over every state attribute name (the finite domain)
     for f in cx.state_fields:
         ok = rinv(wmap(f)) == f and rmap(f) == wmap(f)
         res.check("RT-NAMEMAP", "field %s -> <%s> -> %s" % (f, wmap(f), rinv(wmap(f))), ok, wmod, wmap.fn, "field %s written as <%s>, read back as %s / looked up as <%s>" % (f, wmap(f), rinv(wmap(f)), rmap(f)), "the state attribute %s does not survive the name mapping" % f, qualname="StateXMLNode._map_to_xml_prop")
